@@ -522,6 +522,56 @@ def l3c_case(args):
     return key, errs
 
 
+def l3d_case(args):
+    """grouped TPM tables: a gene with three isoforms that share their first three exons; group 'bulk' has full-length reads of every
+       isoform, group 'cellX' a single read over the shared exons (weight 1/3 per isoform under with_ambiguous, column total 0.99 after
+       rounding): every group column of a grouped TPM table is its counts column rescaled to 10^6"""
+    strategy, scratch = args
+    from vlib import worlds as W, syn, run
+    w = W.base_world(1, 9000)
+    A, B, C = [1001, 1200], [1601, 1800], [2201, 2400]
+    tails = {"T1": [2801, 3000], "T2": [3401, 3600], "T3": [4001, 4200]}
+    w["genes"].append({"id": "G1", "chr": "chr1", "strand": "+", "transcripts": [{"id": t, "exons": [A, B, C, e]} for t, e in tails.items()]})
+    syn.plant_for_transcripts(w)
+    for t, e in tails.items():
+        for i in range(3):
+            w["reads"].append(W.read_of("%s%d_bulk" % (t, i), "chr1", [A, B, C, e]))
+    w["reads"].append(W.read_of("shared_cellX", "chr1", [A, B, C], polya=False))
+    d = os.path.join(scratch, "c09d_%s" % strategy)
+    shutil.rmtree(d, ignore_errors=True)
+    paths = syn.materialise(w, d)
+    out = os.path.join(d, "out")
+    rc = run.run_isoquant(run.base_argv(paths, out, extra=["--read_group", "read_id:_", "--transcript_quantification", strategy,
+                                                          "--gene_quantification", strategy]), paths["home"], os.path.join(d, "o.txt"))
+    errs = []
+    if rc != 0:
+        errs.append(("run-failed", "exit %d: %s" % (rc, open(os.path.join(d, "o.txt")).read()[-300:])))
+        shutil.rmtree(d, ignore_errors=True)
+        return strategy, errs
+    for level in ("gene", "transcript", "transcript_model"):
+        try:
+            hc, rc_ = run.parse_counts(run.find(out, "OUT", ".%s_grouped_counts.tsv" % level))
+            ht, rt = run.parse_counts(run.find(out, "OUT", ".%s_grouped_tpm.tsv" % level))
+        except Exception as e:  # noqa
+            errs.append(("tables-unreadable", "%s: %r" % (level, e)))
+            continue
+        if hc is None or ht is None:
+            continue
+        for gi, g in enumerate(hc[1:]):
+            col = {f: float(v[0][gi]) for f, v in rc_.items() if not f.startswith("__")}
+            tot = sum(col.values())
+            if tot <= 0 or g not in ht[1:]:
+                continue
+            ti = ht[1:].index(g)
+            tpm = {f: float(v[0][ti]) for f, v in rt.items() if not f.startswith("__")}
+            bad = [f for f in col if abs(tpm.get(f, 0.0) - col[f] * 1e6 / tot) > 0.5]
+            if bad or abs(sum(tpm.values()) - 1e6) > 5:
+                errs.append(("grouped-tpm:%s" % level, "%s grouped TPM, group %s: counts %s (total %.2f), TPM %s (sum %.1f)" %
+                             (level, g, sorted(col.items()), tot, sorted(tpm.items()), sum(tpm.values()))))
+    shutil.rmtree(d, ignore_errors=True)
+    return strategy, errs
+
+
 def run(ctx):
     quick = ctx.tier == "quick"
     n1, bad1 = l1_groupers(ctx.scratch)
@@ -591,6 +641,10 @@ def run(ctx):
         for k, msg in errs:
             ctx.violation("l3b:%s" % k, "gene strategy %s, transcript strategy %s: %s" % (key[0], key[1], msg), {"l3b": list(key)})
     ctx.note("partition oracle on the all-types world: %d strategy pairs" % len(sp))
+    for key, errs in core.pmap(l3d_case, [(st, ctx.scratch) for st in ("with_ambiguous", "all", "unique_only")]):
+        nl3 += 1
+        for k, msg in errs:
+            ctx.violation("l3d:%s" % k, "strategy %s: %s" % (key, msg), {"l3d": key})
     cj = [(sh, swap, himem, threads, ctx.scratch) for n in range(5) for sh in itertools.combinations(range(4), n) for swap in (0, 1)
           for himem in ((0,) if quick else (0, 1)) for threads in ((1,) if quick else (1, 2))]
     for key, errs in core.pmap(l3c_case, cj):
@@ -613,6 +667,11 @@ def run(ctx):
 
 
 def replay(ctx, case):
+    if "l3d" in case:
+        key, errs = l3d_case((case["l3d"], ctx.scratch))
+        for k, msg in errs:
+            ctx.violation("l3d:%s" % k, msg, case)
+        return
     if "l3c" in case:
         c = case["l3c"]
         key, errs = l3c_case((tuple(c[0]), c[1], c[2], c[3], ctx.scratch))
